@@ -701,10 +701,12 @@ class Interp:
     def const_body(self, key, body, fr):
         """value of a closed constant item / promoted: its own MIR is interpreted once (constants have no inputs);
         the value lives in a frame of its own so that references into it stay valid"""
-        k = (id(self.F),) + key
+        # (a promoted / inline constant of a generic function sees the function's generic arguments)
+        envk = tuple(sorted((a, b) for a, b in (fr.env or {}).items() if isinstance(b, (int, bool, str)))) if key[0] == "promoted" else ()
+        k = (id(self.F),) + key + (envk,)
         if k not in TABLES:
             sub = Interp(self.F, 0, 0, self.handlers)
-            v = sub.call_body(body, [], {}, 1)
+            v = sub.call_body(body, [], dict(fr.env) if key[0] == "promoted" else {}, 1)
             holder = Frame({"path": "const " + str(key)}, {})
             holder.locals[0] = v
             TABLES[k] = holder
@@ -947,6 +949,8 @@ class Interp:
         if f.get("fn_crate") in ("anyhow", "alloc", "core", "std") and re.match(r"(anyhow::|alloc::fmt::|core::fmt::|std::fmt::|alloc::string::|core::panicking::)", name) \
                 and t["target"] is not None:
             return Opaque(("foreign", name))       # error values / formatted messages: nothing the analysed clauses depend on
+        if t.get("target") is None and re.match(r"(core::panicking::|std::rt::begin_panic|std::panicking::|core::option::expect_failed|core::result::unwrap_failed)", name):
+            raise Panic("explicit panic (%s)" % name)
         if name == "std::hint::must_use" and len(args) == 1:
             return args[0]
         if f.get("fn_crate") != "dsi_bitstream" and t["target"] is not None and args and all(self.is_opaque(a) for a in args):
